@@ -345,6 +345,24 @@ VARIANTS["C03"] = [
 # the "sync-cut-differently" entry is really a twin (same range written another way)
 VARIANTS["C03"] = [v if v.name != "sync-cut-differently" else V("twin-sync-cut-explicit", "twin", NP, v.edits, (), "same range, explicit bounds") for v in VARIANTS["C03"]]
 
+VARIANTS["C03"] += [
+    V("ap-handle-append-mode", "fire", NP, [(
+        '                _shank_info["ap_open_file"] = open(_shank_info["ap_file"], "wb")', '                _shank_info["ap_open_file"] = open(_shank_info["ap_file"], "ab")')], ("D8",),
+      "a forced re-split over uncompressed output of an earlier run appends behind the stale frames"),
+    V("lazy-append-touch", "fire", NP, [(
+        '                _shank_info["ap_open_file"] = open(_shank_info["ap_file"], "wb")', '                _shank_info["ap_file"].touch()\n                _shank_info["ap_open_file"] = open(_shank_info["ap_file"], "ab")')], ("D8",),
+      "touch() keeps the stale content"),
+    V("twin-write-bytes-then-append", "twin", NP, [(
+        '                _shank_info["ap_open_file"] = open(_shank_info["ap_file"], "wb")', '                _shank_info["ap_file"].write_bytes(b"")\n                _shank_info["ap_open_file"] = open(_shank_info["ap_file"], "wb")')], (),
+      "emptied explicitly, then opened"),
+]
+VARIANTS["C04"] += [
+    V("np21-lf-handle-append-mode", "fire", NP, [(
+        '                _shank_info["lf_file"] = lf_file\n                _shank_info["lf_open_file"] = open(_shank_info["lf_file"], "wb")',
+        '                _shank_info["lf_file"] = lf_file\n                _shank_info["lf_open_file"] = open(_shank_info["lf_file"], "ab")')], ("D6",),
+      "forced NP2.1 re-run appends the LF band behind the previous one"),
+]
+
 # ------------------------------------------------------------------------------------------------ C12
 VARIANTS["C12"] = [
     V("window-lookahead-carried-chunk", "fire", NP, [('        for first, last in wg.firstlast:\n            first = first + offset\n            last = last + offset\n\n            chunk_lf = self.extract_lfp(self.sr[first:last, : self.napch].T)\n            chunk_lf_sync = self.extract_lfp_sync(\n                self.sr[first:last, self.idxsyncch:].T\n            )\n\n            chunk_lf2save = self._ind2save(\n                chunk_lf, chunk_lf_sync, wg, ratio=self.ratio, etype="lf"\n            )\n\n            self._split2shanks(chunk_lf2save, etype="lf")\n', '        pending = None\n        for first, last in wg.firstlast:\n            ahead = self.sr[first + offset:last + offset, :].T\n            if pending is not None:\n                chunk_lf2save = self._ind2save(\n                    self.extract_lfp(pending[: self.napch]), self.extract_lfp_sync(pending[self.idxsyncch:]), wg, ratio=self.ratio, etype="lf"\n                )\n                self._split2shanks(chunk_lf2save, etype="lf")\n            pending = ahead\n        chunk_lf2save = self._ind2save(\n            self.extract_lfp(pending[: self.napch]), self.extract_lfp_sync(pending[self.idxsyncch:]), wg, ratio=self.ratio, etype="lf"\n        )\n        self._split2shanks(chunk_lf2save, etype="lf")\n')], ("D5",),
